@@ -155,6 +155,7 @@ def _objects():
         'p1': lambda: fem.ElementTriP1(),
         'p2': lambda: fem.ElementTriP2(),
         'linepp3': lambda: fem.ElementLinePp(3),
+        'linepp4': lambda: fem.ElementLinePp(4),
         'quadp3': lambda: fem.ElementQuadP(3),
         'quad2': lambda: fem.ElementQuad2(),
         'q1': lambda: fem.ElementQuad1(), 'lp1': lambda: fem.ElementLineP1(), 'tp1': lambda: fem.ElementTetP1(),
@@ -182,8 +183,14 @@ def _objects():
     O['map_c'] = lambda: fem.MeshTri2.init_circle(1).mapping()
     O['B_p2'] = lambda: fem.Basis(fem.MeshTri().refined(1), fem.ElementTriP2())
     O['FB_p2'] = lambda: fem.FacetBasis(fem.MeshTri().refined(1), fem.ElementTriP2())
-    O['B_pp'] = lambda: fem.Basis(fem.MeshLine(np.linspace(0, 1, 4)), fem.ElementLinePp(3))
-    O['B_qp'] = lambda: fem.Basis(fem.MeshQuad().refined(1), fem.ElementQuadP(3))
+    O['B_pp'] = lambda g: fem.Basis(g('line_a'), g('linepp4'))            # shares mesh and element with other recipes
+    # same element object, another rule with EQUALLY MANY (5) but different points
+    O['B_pp2'] = lambda g: fem.Basis(g('line_a'), g('linepp4'),
+                                     quadrature=(np.linspace(0.125, 0.875, 5)[None, :], np.full(5, 0.2)))
+    O['B_qp'] = lambda g: fem.Basis(g('quad_a'), g('quadp3'))
+    O['B_mor'] = lambda g: fem.Basis(g('tri_a'), g('morley'))
+    O['x0'] = lambda: np.linspace(0.0, 1.0, 9)
+    O['form_mass'] = lambda: fem.BilinearForm(lambda u, v, w: u * v)
     O['B_l2'] = lambda: fem.Basis(fem.MeshLine(np.linspace(0, 1, 4)), fem.ElementLineP2())
     O['B_q2'] = lambda: fem.Basis(fem.MeshQuad().refined(1), fem.ElementQuad2())
     return O
@@ -242,6 +249,12 @@ def _ops():
         ('evalpp', ['B_pp', 'P3'], lambda b, x: b.interpolator(np.arange(b.N, dtype=float) ** 2 / 16.)(x)),
         ('evalpp', ['B_pp', 'S1'], lambda b, x: b.interpolator(np.arange(b.N, dtype=float) ** 2 / 16.)(x)),
         ('evalpp', ['B_pp', 'S2'], lambda b, x: b.interpolator(np.arange(b.N, dtype=float) ** 2 / 16.)(x)),
+        ('massB', ['B_pp'], lambda b: mass.assemble(b)),
+        ('loadB', ['B_pp'], lambda b: unit_load.assemble(b)),
+        ('refinterp', ['B_pp'], lambda b: list(b.refinterp(np.arange(b.N, dtype=float) / 4., nrefs=2))[1]),
+        ('massB', ['B_pp2'], lambda b: mass.assemble(b)),
+        ('massB', ['B_qp'], lambda b: mass.assemble(b)),
+        ('massB', ['B_mor'], lambda b: mass.assemble(b)),
         ('evalqp', ['B_qp', 'Q1'], lambda b, x: b.probes(x) @ (np.arange(b.N, dtype=float) / 8.)),
         ('evalqp', ['B_qp', 'Q2'], lambda b, x: b.probes(x) @ (np.arange(b.N, dtype=float) / 8.)),
     ]
@@ -274,6 +287,16 @@ def _ops():
         ('tag', ['tri_t'], lambda m: m.with_boundaries({'top': lambda x: x[1] == 1}).with_subdomains({'r': lambda x: x[0] > .5})),
         ('meshio', ['tri_t'], lambda m: _meshio_data(m)),
         ('finder', ['tri_t', 'Q1'], lambda m, x: m.element_finder()(*x)),
+        ('use', ['tri_t'], lambda m: [mass.assemble(fem.Basis(m, fem.ElementTriP1())), m.mapping().detDF(np.array([[.25], [.25]]))]),
+        ('translated_mass', ['tri_t'], lambda m: _mesh_numbers(m.translated((1., 2.)))),
+        ('scaled_mass', ['tri_t'], lambda m: _mesh_numbers(m.scaled((2., 0.5)))),
+        ('mirrored_mass', ['tri_t'], lambda m: _mesh_numbers(m.mirrored((0.5, 0.), (1., 0.)))),
+        ('morphed_mass', ['tri_t'], lambda m: _mesh_numbers(m.morphed(lambda p: p[0] + 0.25 * p[1], lambda p: 2. * p[1]))),
+        ('refined_mass', ['tri_t'], lambda m: _mesh_numbers(m.refined())),
+        ('restrict_mass', ['tri_t'], lambda m: _mesh_numbers(m.restrict(np.array([0, 1, 2, 5])))),
+        ('tagged_mass', ['tri_t'], lambda m: _mesh_numbers(m.with_boundaries({'top': lambda x: x[1] == 1}))),
+        ('oriented', ['tri_t'], lambda m: [m.oriented().t, m.oriented().p]),
+        ('conn_again', ['tri_t'], lambda m: [m.t, m.facets, m.t2f, m.f2t, m.boundary_nodes()]),
         ('tetadapt', ['tet_a'], lambda m: m.refined(np.array([0, 3]))),
         ('tetedges', ['tet_a'], lambda m: [m.edges, m.t2e, m.f2e]),
         ('smoothed', ['tri_t'], lambda m: m.smoothed()),
@@ -295,6 +318,11 @@ def _ops():
         ('psource', ['B_l2', 'P1'], lambda b, x: b.point_source(x[0, :1])),
         ('mixed', ['B_p2', 'p1'], lambda b, e: fem.BilinearForm(lambda u, v, w: u * v).assemble(b, b.with_element(e))),
         ('load', ['B_q2'], lambda b: unit_load.assemble(b)),
+        ('asm_then_scale', ['B_p2'], lambda b: _inplace_scaled(mass.assemble(b))),
+        ('asm_own_form', ['form_mass', 'B_p2'], lambda f, b: f.assemble(b)),
+        ('asm_own_then_setdiag', ['form_mass', 'B_p2'], lambda f, b: _inplace_diag(f.assemble(b))),
+        ('coo_own_form', ['form_mass', 'B_p2'], lambda f, b: f.coo_data(b).tocsr()),
+        ('lin_then_scale', ['B_p2'], lambda b: _inplace_scaled(unit_load.assemble(b))),
         ('qmass', ['B_q2'], lambda b: mass.assemble(b)),
         ('qprobes', ['B_q2', 'Q2'], lambda b, x: b.probes(x) @ y2(b)),
     ]
@@ -352,8 +380,38 @@ def _ops():
         ('solve_cond', ['A1'], lambda A: su.solve(*su.condense(A, ones(A), x=xs(A), D=D))),
         ('solve_enf', ['A1'], lambda A: su.solve(*su.enforce(A, ones(A), x=xs(A), D=D))),
         ('diag', ['A2'], lambda A: su.build_pc_diag(A)),
+        ('solve_cond_x', ['A1', 'x0'], lambda A, x: su.solve(*su.condense(A, ones(A), x=x, D=D))),
+        ('solve_enf_x', ['A1', 'x0'], lambda A, x: su.solve(*su.enforce(A, ones(A), x=x, D=D))),
+        ('solve_cond_keep', ['A1', 'x0'], lambda A, x: _solve_twice(su, A, x, D)),
     ]
     return G
+
+
+def _mesh_numbers(m):
+    """Numbers computed THROUGH a derived mesh (its mapping, bases, finder), not only its arrays."""
+    import skfem as fem
+    from skfem.models.poisson import mass
+    b = fem.Basis(m, fem.ElementTriP1())
+    return [m.p, m.t, mass.assemble(b), b.doflocs, m.mapping().detDF(np.array([[.25], [.25]])),
+            m.element_finder()(*m.p[:, m.t[:, 0]].mean(axis=1)[:, None])]
+
+
+def _inplace_scaled(A):
+    A *= 2.0
+    return A
+
+
+def _inplace_diag(A):
+    A.setdiag(7.0)
+    return A
+
+
+def _solve_twice(su, A, x, D):
+    cond = su.condense(A, np.ones(A.shape[0]), x=x, D=D)
+    y1 = su.solve(*cond)
+    keep = y1.copy()
+    y2 = su.solve(*su.condense(A, 2.0 * np.ones(A.shape[0]), x=x, D=D))
+    return [keep, y1, y2]
 
 
 def _meshio_data(m):
@@ -382,6 +440,24 @@ def group_sizes():
     return {g: len(v) for g, v in ops().items()}
 
 
+def build(name, pool):
+    """Evaluate the recipe `name`.  pool=None: everything fresh (sub-objects included); otherwise objects are interned
+    in the pool by recipe name, sub-objects of composite recipes (bases over pooled meshes/elements) as well."""
+    O = objects()
+    if pool is not None and name in pool:
+        return pool[name]
+    f = O[name]
+    import inspect
+    if len(inspect.signature(f).parameters) == 1:
+        memo = {} if pool is None else pool           # fresh: sub-objects shared only within this one construction
+        obj = f(lambda sub: build(sub, memo if pool is not None else None) if pool is not None else O[sub]())
+    else:
+        obj = f()
+    if pool is not None:
+        pool[name] = obj
+    return obj
+
+
 def run_op(group, k, pool=None):
     """Execute operation instance k of a group on pooled (pool dict given) or fresh operands.
     Returns (hash or '', err, checksums before, checksums after)."""
@@ -389,15 +465,7 @@ def run_op(group, k, pool=None):
     import logging
     logging.getLogger('skfem').setLevel(logging.ERROR)
     name, operands, fn = ops()[group][k]
-    O = objects()
-    objs = []
-    for r in operands:
-        if pool is None:
-            objs.append(O[r]())
-        else:
-            if r not in pool:
-                pool[r] = O[r]()
-            objs.append(pool[r])
+    objs = [build(r, pool) for r in operands]
     before = [checksum(o) for o in objs]
     try:
         res = fn(*objs)
